@@ -486,6 +486,17 @@ Definition all_clean (vd : list nat) : bool := forallb (fun r => Nat.eqb (nth r 
 Definition check_c14 (claims : positive -> claim) (f : func) : bool :=
   all_clean (cl_vd (claims (fid f))) && check_vclaim claims f.
 
+(* the same with a reviewed residue: registers that may keep data that is not key material
+   (per register, the width allowed to stay dirty) *)
+Definition check_c14r (claims : positive -> claim) (res : list nat) (f : func) : bool :=
+  v_within res (cl_vd (claims (fid f))) && check_vclaim claims f.
+
+Fixpoint lookup_res (l : list (positive * list nat)) (p : positive) : option (list nat) :=
+  match l with
+  | [] => None
+  | (i, r) :: t => if Pos.eqb i p then Some r else lookup_res t p
+  end.
+
 (* ------------------------------------------------------------------ tables *)
 Definition claim_map (l : list (positive * claim)) : PM.t claim :=
   fold_left (fun m ic => PM.add (fst ic) (snd ic) m) l (PM.empty claim).
